@@ -14,6 +14,8 @@ use std::collections::{BTreeMap, BTreeSet};
 use std::fmt::Write as _;
 use syn::*;
 
+mod limb;
+
 type R<T> = std::result::Result<T, String>;
 
 const LEAN_KEYWORDS: &[&str] = &["by", "at", "from", "end", "fun", "do", "then", "else", "in", "have", "show", "with", "open", "def", "where", "variable", "instance", "class", "structure", "theorem", "match", "if", "let", "mut", "for", "return", "deriving", "namespace", "section", "local", "prefix", "infix", "notation", "macro", "syntax", "universe", "import", "export", "private", "protected", "abbrev", "example", "axiom", "opaque", "set_option", "using", "calc", "Type", "Prop", "Sort"];
@@ -949,6 +951,8 @@ fn main() {
     let args: Vec<String> = std::env::args().collect();
     let src = &args[1];
     let out_dir = &args[2];
+    // optional 3rd argument: comma-separated `Ns.fn` keys to leave out (their generated text did not elaborate)
+    let excluded: BTreeSet<String> = args.get(3).map(|s| s.split(',').filter(|x| !x.is_empty()).map(|x| x.to_string()).collect()).unwrap_or_default();
     let mut defs = String::new();
     let mut report: BTreeMap<String, String> = BTreeMap::new();
     let mut emitted: Vec<(String, String, Vec<String>, bool)> = vec![]; // (ns, fn, param names, per-arm?)
@@ -963,6 +967,7 @@ fn main() {
                 if !t.fns.contains(&name.as_str()) || found.contains(&name) { continue; }
                 let m = ImplItemFn { attrs: vec![], vis: f.vis.clone(), defaultness: None, sig: f.sig.clone(), block: (*f.block).clone() };
                 let key = format!("{}.{}", t.lean_ns, name);
+                if excluded.contains(&key) { report.insert(key, "skipped: the generated definition does not elaborate in Lean (ill-typed translation)".into()); continue; }
                 match translate_fn(t, &m) {
                     Ok((text, params, arms)) => { found.insert(name.clone()); defs.push_str(&text); defs.push('\n'); report.insert(key, "translated".into()); emitted.push((t.lean_ns.to_string(), name, params, arms)); }
                     Err(e) => { report.insert(key, format!("skipped: {}", e)); }
@@ -983,6 +988,7 @@ fn main() {
                 }
                 if found.contains(&name) { continue; }
                 let key = format!("{}.{}", t.lean_ns, name);
+                if excluded.contains(&key) { report.insert(key, "skipped: the generated definition does not elaborate in Lean (ill-typed translation)".into()); continue; }
                 match translate_fn(t, m) {
                     Ok((text, params, arms)) => { found.insert(name.clone()); defs.push_str(&text); defs.push('\n'); report.insert(key, "translated".into()); emitted.push((t.lean_ns.to_string(), name, params, arms)); }
                     Err(e) => { report.insert(key, format!("skipped: {}", e)); }
@@ -1001,6 +1007,8 @@ fn main() {
     write_if_changed(&format!("{}/rs2lean_report.json", out_dir), &rep);
     let ok = report.values().filter(|v| *v == "translated").count();
     println!("{{\"translated\": {}, \"skipped\": {}}}", ok, report.len() - ok);
+    let (lt, ls) = limb::run(src, out_dir);
+    println!("{{\"limb_translated\": {}, \"limb_skipped\": {}}}", lt, ls);
     let _ = emitted;
 }
 
